@@ -209,7 +209,7 @@ def dg_history(case, r):
             except Exception as e:
                 r.bad(["dg", "get-one-argument-raises", type(e).__name__], f"{where}: {e!r}")
         elif o == "pop_default":
-            sentinel = object()
+            sentinel = None if i % 2 else object()          # (None is a default like any other)
             try:
                 res = dg.pop(op["key"], sentinel)
                 want = model.pop(op["key"], sentinel)
@@ -490,7 +490,7 @@ def ds_history(case, r):
             except Exception as e:
                 r.bad(["ds", "get-one-argument-raises", type(e).__name__], f"{where}: {e!r}")
         elif o == "pop_default":
-            sentinel = object()
+            sentinel = None if i % 2 else object()
             try:
                 res = ds.pop(op["key"], sentinel)
                 want = model.pop(op["key"], sentinel)
